@@ -183,6 +183,36 @@ def oracle_entry(s):
     return "Ok %s" % to_coq(r), ("ok", r)
 
 
+def coq_outcomes(cases, shard):
+    """evaluate the codec model on the cases (dicts with v, s0, ent) -> ([(outcome, json outcome)], [str codes]) or an error text"""
+    import re
+    body = ["From Coq Require Import ZArith List Bool String.", "From XV Require Import Base.Scalar Model.PyVal Gen.T2 Model.Serial.",
+            "Import ListNotations.", "Open Scope string_scope.",
+            "Definition cases : list (list (string * result pyv) * pyv) := ["]
+    body.append(";\n".join("  ([(%s, %s)], %s)" % (coq_str(c["s0"]), c["ent"], to_coq(c["v"])) for c in cases))
+    body.append("].")
+    body.append("Eval vm_compute in map (fun c => (codec_outcome (fst c) (snd c), json_outcome (snd c))) cases.")
+    body.append("Eval vm_compute in map (fun c => str_codes (py_str (snd c))) cases.")
+    f = C.write_case_file("C13", shard, "\n".join(body) + "\n")
+    rc, out = C.coqc_run(f)
+    if rc != 0:
+        return out[-1200:]
+    ev = C.parse_evals(out)
+    model = C.parse_pairs(ev[0]) if ev else []
+    strs = [[int(x) for x in re.findall(r"-?\d+", g)] for g in re.findall(r"\[([^\[\]]*)\]", ev[1].replace("%Z", ""))] if len(ev) > 1 else []
+    if len(model) != len(cases) or len(strs) != len(cases):
+        return "model produced %d/%d answers for %d cases" % (len(model), len(strs), len(cases))
+    return model, strs
+
+
+def make_case(v):
+    s0 = v if isinstance(v, str) else str(v)
+    ent, info = oracle_entry(s0) if s0 != "" else ("Err 6", ("err", "SyntaxError"))
+    if ent is None:
+        return None
+    return dict(v=v, s0=s0, ent=ent, info=info)
+
+
 def run_codec(ctx):
     rng = ctx.rng.child("c13-codec").np
     vals = [s for s in FIXED_STRINGS]
@@ -195,31 +225,14 @@ def run_codec(ctx):
     for v in vals:
         if not representable(v):
             continue
-        s0 = v if isinstance(v, str) else str(v)
-        ent, info = oracle_entry(s0) if s0 != "" else ("Err 6", ("err", "SyntaxError"))
-        if ent is None:
-            continue
-        cases.append(dict(v=v, s0=s0, ent=ent, info=info))
-    body = ["From Coq Require Import ZArith List Bool String.", "From XV Require Import Base.Scalar Model.PyVal Gen.T2 Model.Serial.",
-            "Import ListNotations.", "Open Scope string_scope.",
-            "Definition cases : list (list (string * result pyv) * pyv) := ["]
-    body.append(";\n".join("  ([(%s, %s)], %s)" % (coq_str(c["s0"]), c["ent"], to_coq(c["v"])) for c in cases))
-    body.append("].")
-    body.append("Eval vm_compute in map (fun c => (codec_outcome (fst c) (snd c), json_outcome (snd c))) cases.")
-    body.append("Eval vm_compute in map (fun c => str_codes (py_str (snd c))) cases.")
-    f = C.write_case_file("C13", "codec", "\n".join(body) + "\n")
-    rc, out = C.coqc_run(f)
-    if rc != 0:
-        ctx.oblige("correspondence:codec", "correspondence", False, out[-1200:])
+        c = make_case(v)
+        if c is not None:
+            cases.append(c)
+    res = coq_outcomes(cases, "codec")
+    if isinstance(res, str):
+        ctx.oblige("correspondence:codec", "correspondence", False, res)
         return
-    ev = C.parse_evals(out)
-    model = C.parse_pairs(ev[0]) if ev else []
-    import re
-    strs = [[int(x) for x in re.findall(r"-?\d+", g)] for g in re.findall(r"\[([^\[\]]*)\]", ev[1].replace("%Z", ""))] if len(ev) > 1 else []
-    if len(model) != len(cases) or len(strs) != len(cases):
-        ctx.oblige("correspondence:codec", "correspondence", False,
-                   "model produced %d/%d answers for %d cases" % (len(model), len(strs), len(cases)))
-        return
+    model, strs = res
     bad = 0
     prem_bad = 0
     seen_outcomes = {}
@@ -246,6 +259,11 @@ def run_codec(ctx):
             bad += 1
             ctx.violation("C13:correspondence:codec", "codec model and implementation disagree on attribute %r: %s" % (v, why),
                           dict(kind="codec", value=v))
+        # the property itself on the implementation: structured values and numbers survive the codec
+        if not isinstance(v, str) and is_simple(v) and io != 0:
+            ctx.violation("C13:nc-codec:structured-value:%s" % type(v).__name__,
+                          "an attribute of type %s does not survive _sanitize_attrs_nc -> _desanitize_attrs_nc: %r came back as %r "
+                          "(expected: equal value)" % (type(v).__name__, v, outs[0][1]), dict(kind="codec", value=v))
         seen_outcomes[(type(v).__name__, io)] = seen_outcomes.get((type(v).__name__, io), 0) + 1
         # premises about the oracle, on Python itself
         if isinstance(v, (list, dict, bool)) or v is None:
@@ -499,11 +517,11 @@ def attr_causes(a, b, own_keys):
         if k in ("multiindexes", "name_map"):
             out.append(("serializer-attrs-in-result", "%s: %r -> %r" % (k, va, vb)))
         elif k not in own_keys and isinstance(va, str) and k in b and not isinstance(vb, str):
-            out.append(("own-attr-string-becomes-%s" % type(vb).__name__, "%s: %r -> %r" % (k, va, vb)))
+            out.append(("own-attr-literal-string-retyped", "%s: %r -> %r (%s)" % (k, va, vb, type(vb).__name__)))
         elif isinstance(va, str) and k in b and not isinstance(vb, str):
-            out.append(("user-attr-string-%r-becomes-%s" % (va, type(vb).__name__), "%s: %r -> %r" % (k, va, vb)))
+            out.append(("user-attr-literal-string-retyped", "%s: %r -> %r (%s)" % (k, va, vb, type(vb).__name__)))
         elif k in own_keys and isinstance(va, str) and k not in b:
-            out.append(("user-attr-string-%r-dropped" % va, "%s: %r -> absent" % (k, va)))
+            out.append(("user-attr-literal-string-dropped", "%s: %r -> absent" % (k, va)))
         elif isinstance(va, tuple) and isinstance(vb, list) and list(va) == vb:
             out.append(("tuple-becomes-list", "%s" % k))
         else:
@@ -577,7 +595,7 @@ def compare_obs(o0, o1, own_keys):
                     lab_ok = False
                     diffs.append((key, "labels", "coordinate %s differs" % c))
                 for cause, det in attr_causes(dict(x[c].attrs), dict(y[c].attrs), own_keys):
-                    diffs.append((key, "attrs:coord:" + cause, "%s.%s" % (c, det)))
+                    diffs.append((key, "attrs:" + cause, "coordinate %s.%s" % (c, det)))
             if lab_ok:
                 xv, yv = np.asarray(x.values), np.asarray(y.values)
                 if xv.dtype != yv.dtype:
@@ -630,6 +648,7 @@ def report(ctx, case, moment, path, diffs):
     handling of Datasets or of names, the key names the cause instead of the class"""
     for name, kind, det in diffs:
         ans = name.split("[")[0].split(".")[0]
+        ans = {"transform-X-only": "transform", "predict": "transform"}.get(ans, ans)   # all enter through Preprocessor.transform
         base = dict(rp(case, moment, path), answer=name, diff_kind=kind, detail=det)
         where = "%s (%s, input %s, user attrs %s, params %s)" % (case.label, moment, case.struct, case.attrs, case.kw)
         if kind.startswith("attrs:"):
@@ -649,7 +668,12 @@ def report(ctx, case, moment, path, diffs):
             else:
                 key = "C13:%s:%s:%s:%s:%s" % (case.label, moment, path, ans, k)
             what = "%s: after %s, %s of the rebuilt model %s: %s (expected: identical to the fitted model's answer)" % (where, path, name, verb, det)
+        count_report(ctx)
         ctx.violation(key, what, base)
+
+
+def count_report(ctx):
+    ctx.extra["c13_reports"] = ctx.extra.get("c13_reports", 0) + 1
 
 
 def rp(case, moment, path):
@@ -689,6 +713,7 @@ def run_paths(ctx, case, m, moment, o0, paths, first_tree=None):
         try:
             m2 = cls.deserialize(dt)
         except Exception as e:
+            count_report(ctx)
             ctx.violation("C13:%s:%s:%s%s:deserialize:%s" % (case.label, moment, pname, sfx, C.errkind(e)),
                           "%s (%s, input %s, user attrs %s, params %s): %s.deserialize(tree) after %s raised %r"
                           % (case.label, moment, case.struct, case.attrs, case.kw, cls.__name__, pname, e), rp(case, moment, pname))
@@ -755,10 +780,11 @@ def run_case(ctx, case, paths, moments):
             dt2 = base.serialize()
             d = sig_diff(sig0, tree_signature(dt2))
             if d:
-                before = len(ctx.violations) + len(ctx.known_hits)
+                before = ctx.extra.get("c13_reports", 0)
                 numeric += run_paths(ctx, case, base, "after-rotator-fit", o0, [PATHS[0]], first_tree=dt2)
-                if len(ctx.violations) + len(ctx.known_hits) == before:
-                    ctx.violation("C13:%s:after-rotator-fit:tree-changed" % case.label,
+                if ctx.extra.get("c13_reports", 0) == before:
+                    fam = "cross-set" if case.sp.kind == "cross" else case.label
+                    ctx.violation("C13:%s:after-rotator-fit:tree-changed" % fam,
                                   "F-14b: %s: fitting a rotator on the model changed the model's own serialised tree: %s "
                                   "(expected: the fitted model is not modified by a rotator)" % (case.label, d[:4]),
                                   rp(case, "after-rotator-fit", "direct"))
@@ -818,7 +844,7 @@ def plan(ctx):
 
 def run_models(ctx):
     t0 = time.time()
-    budget = ctx.n(45, 720)
+    budget = ctx.n(58, 700)
     cases = plan(ctx)
     done = 0
     for case, paths, moments in cases:
@@ -862,6 +888,11 @@ def replay(ctx, rp):
         v = r["value"]
         outs = impl_codec(v)
         print("replay codec value %r: node-level %r, variable-level %r" % (v, outs[0][:2], outs[1][:2]))
+        c = make_case(v) if representable(v) else None
+        if c is not None and ctx.extra.get("model_ok", True):
+            res = coq_outcomes([c], "replay")
+            print("replay codec value %r: model outcome %r (0 unchanged, 10+k exception kind k, 20+t other type t)"
+                  % (v, res if isinstance(res, str) else res[0][0][0]))
         if outs[1][0] != 0:
             ctx.violation(rp.get("key", "C13:nc-codec:user-attr:%r" % (v,)), "attribute %r does not survive the netCDF codec: %r" % (v, outs[1][1]), r)
         return
